@@ -324,6 +324,7 @@ enum { OP_RESIZE0, OP_RESIZELEN, OP_RESIZEGROW, OP_COPY, OP_ASSIGN_EMPTY, OP_ASS
        OP_B_COPY, OP_B_ASSIGN_FROM_A, OP_A_ASSIGN_FROM_B, OP_B_DEL, OP_B_SET, OP_B_REM, OP_SWAP,
        OP_F_GET_WRONGKEY, OP_F_SET_WRONGKEY, OP_F_SET_WRONGVAL, OP_F_REM_WRONGKEY, OP_F_MEM_WRONGKEY, OP_F_RESIZE_SMALL,
        OP_F_GET_NULL, OP_F_SET_NULLVAL, OP_F_ASSIGN_INT, OP_F_ASSIGN_STR,
+       OP_ASSIGN_XTYPE,
        OP_NMISC };
 
 static int alias_ops = 1;
@@ -355,7 +356,7 @@ static void opname(int op, char* buf, size_t cap) {
   static const char* nm[] = { "resize(0)", "resize(len)", "resize(2len+3)", "A=copy(A)", "A=assign(new,A)", "A=assign(nonempty,A)",
     "B=copy(A)", "assign(B,A)", "assign(A,B)", "del(B)", "set(B,k0,1)", "rem(B,k0)", "swap(A,B)",
     "get(wrong-type key)", "set(wrong-type key)", "set(wrong-type val)", "rem(wrong-type key)", "mem(wrong-type key)", "resize(len-1)",
-    "get(NULL)", "set(k0,NULL)", "assign(A, an Int)", "assign(A, a String)" };
+    "get(NULL)", "set(k0,NULL)", "assign(A, an Int)", "assign(A, a String)", "A=assign(filled table of other key/value types,A)" };
   snprintf(buf, cap, "%s", nm[op - 3 * K]);
 }
 
@@ -536,6 +537,20 @@ static int apply_inner(int op) {
     e = VF_CATCH(assign(R[2], TA));
     if (e) { vf_violation(L("raises"), NULL, "assign raised %s", vf_exc_name(e)); del_raw(R[2]); R[2] = NULL; return VF_BAD; }
     del_table(TA, A_managed); TA = R[2]; R[2] = NULL; A_managed = 0;
+    return VF_OK; }
+  case OP_ASSIGN_XTYPE: {
+    /* the receiver was constructed, and filled, with key and value types of ANOTHER size (Probe is 24 bytes, Int and String 8) */
+    lastkind = "assign-into-nonempty-other-types";
+    var KT2 = kkind == 2 ? Int : Probe, VT2 = vkind == 2 ? Int : Probe;
+    R[2] = new_raw(Table, KT2, VT2);
+    for (int i = 0; i < 3; i++) set(R[2], KT2 == Probe ? (var)VF_P(900 + 55 * i) : (var)$I(900 + 55 * i), VT2 == Probe ? (var)VF_P(i) : (var)$I(i));
+    e = VF_CATCH(assign(R[2], TA));
+    if (e) { vf_violation(L("raises"), NULL, "assign onto a filled table of other types raised %s", vf_exc_name(e)); var e2 = VF_CATCH(del_raw(R[2])); (void)e2; R[2] = NULL; return VF_BAD; }
+    if (key_type(R[2]) != KT || val_type(R[2]) != VT) { vf_violation(L("types"), NULL, "after assign the receiver does not have the source's key/value types"); return VF_BAD; }
+    del_table(TA, A_managed); TA = R[2]; R[2] = NULL; A_managed = 0;
+    if (vf_led_err[0]) { vf_violation(L("ledger"), NULL, "%s", vf_led_err); vf_led_err[0] = 0; return VF_BAD; }
+    { int per = (kkind == 2) + (vkind == 2); int64_t expect = (int64_t)per * mcount(&MA) + (TB ? (int64_t)per * mcount(&MB) : 0);
+      if (vf_led_live - led_base != expect) { vf_violation(L(vf_led_live - led_base > expect ? "old-elements-not-finalised" : "too-many-finalised"), NULL, "%" PRId64 " Probe elements live after the assign, the tables contain %" PRId64, vf_led_live - led_base, expect); return VF_BAD; } }
     return VF_OK; }
   case OP_B_COPY:
     if (!two) return VF_SKIP;
